@@ -7,8 +7,9 @@ open Pyemv Pyemv.Gen
 theorem ac_generate_ac (sk d : Bytes) (pt : Option PaddingType) (l : Option Nat) :
     Gen.ac.generate_ac sk d pt l = generateAc sk d pt l := by
   unfold Gen.ac.generate_ac generateAc
+  try simp only [bind_pure]      -- `do let v ← e; pure v` is `e` (single-exit rewrites)
   by_cases h : sk.length = 16
-  · simp only [h, ne_eq, not_true_eq_false, if_false, mac_mac3, bind, Except.bind, pure, Except.pure]
+  · simp only [h, ne_eq, not_true_eq_false, if_false, mac_mac3, bind, Except.bind, pure, Except.pure, except_match_eta]
     have hl : lastN 8 sk = sk.drop 8 := by simp [lastN, h]
     cases hp : pt.getD .emv <;> simp [hp, hl, throw, throwThe, MonadExceptOf.throw] <;>
       (first
